@@ -641,7 +641,8 @@ class _SetOperation(Selectable, Term):  # type:ignore[misc]
             )
 
         if self._orderbys:
-            querystring += self._orderby_sql(ctx)
+            # ORDER BY of a set operation names result columns: never qualified by an enclosing query's namespace
+            querystring += self._orderby_sql(ctx.copy(with_namespace=False, with_alias=False))
 
         # row limiting follows the dialect of the base query's builder class (LIMIT/OFFSET, OFFSET..FETCH NEXT, ...)
         pager = copy(self.base_query)
